@@ -5,7 +5,7 @@ from __future__ import annotations
 import ast
 from typing import Dict, List, Optional, Set, Tuple
 
-from ..cfg import dominating_conditions, flatten_conditions
+from ..cfg import always_exits as always_exits_, dominating_conditions, flatten_conditions
 from ..core import AnalysisError, Ctx, calls_in, dotted, enclosing, norm, parent, walk_ordered
 from ..effects import param_mutations
 from ..elements import fold_const
@@ -119,40 +119,74 @@ def check(ctx: Ctx) -> None:
     _reversal(ctx, model)
 
     # ---------------- R5.4 ---------------------------------------------------------------
+    from ..prov import Resolver
     for qual in ("DataSet.low_pass", "DataSet.high_pass"):
         fi = model.fi(DS, qual)
-        loops = [n for n in walk_ordered(fi.node) if isinstance(n, ast.For) and isinstance(n.iter, ast.Call) and dotted(n.iter.func) == "enumerate"]
-        if not loops:
-            raise AnalysisError(f"{qual}: enumerate loop not found")
-        for lp in loops:
-            src = lp.iter.args[0]
-            ctx.instance("R5.4", f"{qual}: enumerate({norm(src)})")
-            idx = lp.target.elts[0].id if isinstance(lp.target, ast.Tuple) else None
-            uses_idx_as_key = any(isinstance(n, ast.Subscript) and norm(n.value) == "mask" and norm(n.slice) == idx for n in walk_ordered(lp))
-            full = norm(src) in ("self.get_frequencies(masked=None)", "self._frequencies", "self.get_frequencies(None)")
-            if uses_idx_as_key and not full:
-                ctx.violation("R5.4", f"{qual}:index-space", DS, lp,
-                              f"{qual} uses the index of {norm(src)} as a mask key: that view is filtered, so indices do not address the stored points")
-            else:
+        R = Resolver(fi.node)
+        sm = [c for c in calls_in(fi.node) if dotted(c.func) == "self.set_mask"]
+        if len(sm) != 1 or len(sm[0].args) != 1:
+            raise AnalysisError(f"{qual}: the call self.set_mask(<mask>) was not found")
+        arg = sm[0].args[0]
+        # (a) index space: the frequencies that are compared with the cutoff are the unfiltered view
+        views = [c for c in calls_in(fi.node) if dotted(c.func) == "self.get_frequencies"]
+        direct = [n for n in walk_ordered(fi.node) if isinstance(n, ast.Attribute) and n.attr == "_frequencies" and dotted(n.value) == "self"]
+        ctx.instance("R5.4", f"{qual}: index space of the cutoff comparison")
+        if not views and not direct:
+            raise AnalysisError(f"{qual}: no read of the frequencies found")
+        bad_view = None
+        for c in views:
+            m = [k.value for k in c.keywords if k.arg == "masked"] + list(c.args)
+            if not (m and isinstance(m[0], ast.Constant) and m[0].value is None):
+                bad_view = c
+        if bad_view is not None:
+            ctx.violation("R5.4", f"{qual}:index-space", DS, bad_view,
+                          f"{qual} derives mask indices from {norm(bad_view)}: that view is filtered, so its positions do not address the stored points")
+        else:
+            ctx.ok()
+        # (b) filters only add to the current mask
+        ctx.instance("R5.4", f"{qual}: the new mask extends the current one")
+        t = R.text(arg, sm[0])
+        if isinstance(arg, ast.Name):
+            from ..prov import assignments
+            b_ = [x for x in assignments(fi.node, arg.id) if x[2] == "assign"]
+            t = norm(b_[-1][0].value) if b_ else t
+        if "self.get_mask()" in t or "self._mask" in t:
+            stores = [n for n in walk_ordered(fi.node) if isinstance(n, ast.Assign) and isinstance(n.targets[0], ast.Subscript)
+                      and isinstance(arg, ast.Name) and norm(n.targets[0].value) == arg.id]
+            if all(norm(n.value) == "True" for n in stores):
                 ctx.ok()
+            else:
+                ctx.violation("R5.4", f"{qual}:unmasks", DS, stores[0], f"{qual} writes values other than True into the mask: a pass filter must never unmask points")
+        else:
+            # a partial dictionary is merged by set_mask (update) — unless it is empty, which set_mask treats as "clear everything"
+            conds = flatten_conditions(dominating_conditions(sm[0]))
+            an = norm(arg)
+            guarded = any(pol and norm(c) in (an, f"len({an}) > 0", f"len({an}) != 0", f"len({an}) >= 1") for c, pol in conds) or \
+                any((not pol) and norm(c) in (f"len({an}) == 0", f"not {an}") for c, pol in conds)
+            smf = model.fi(DS, "DataSet.set_mask")
+            clears_on_empty = any(isinstance(n, ast.If) and norm(n.test).replace(" ", "") in ("len(mask)==0", "notmask") and always_exits_(n.body)
+                                  for n in walk_ordered(smf.node))
+            if guarded or not clears_on_empty:
+                ctx.ok()
+            else:
+                ctx.violation("R5.4", f"{qual}:empty-selection-clears-mask", DS, sm[0],
+                              f"{qual} passes {t[:60]} to set_mask: it is not built from the current mask and may be empty, and set_mask({{}}) clears the "
+                              f"whole mask — a filter that selects nothing unmasks previously masked points")
 
     # ---------------- R5.5 ---------------------------------------------------------------
     preds = {}
+    flags: Dict[str, Set[str]] = {}
     for qual, attr in (("DataSet.get_frequencies", "_frequencies"), ("DataSet.get_impedances", "_impedances")):
         fi = model.fi(DS, qual)
-        comps = [n for n in walk_ordered(fi.node) if isinstance(n, ast.ListComp)]
-        if len(comps) != 1 or len(comps[0].generators) != 1:
-            raise AnalysisError(f"{qual}: filter comprehension not recognised")
-        g = comps[0].generators[0]
-        it = norm(g.iter)
-        if it != f"enumerate(self.{attr})":
-            ctx.violation("R5.5", f"{qual}:source", DS, comps[0], f"{qual} filters {it}, expected enumerate(self.{attr})")
-        idx = g.target.elts[0].id
-        item = g.target.elts[1].id
-        if norm(comps[0].elt) != item:
-            ctx.violation("R5.5", f"{qual}:element", DS, comps[0], f"{qual} yields {norm(comps[0].elt)} instead of the enumerated item")
-        preds[qual] = " and ".join(norm(c).replace(idx, "<i>") for c in g.ifs)
+        shape = _filter_shape(fi.node, attr)
+        if shape is None:
+            raise AnalysisError(f"{qual}: filter expression not recognised (neither a comprehension over enumerate(self.{attr}) nor boolean indexing of self.{attr})")
+        preds[qual], flags[qual], src_ok, elt_ok = shape
         ctx.instance("R5.5", f"{qual}: predicate {preds[qual]}")
+        if not src_ok:
+            ctx.violation("R5.5", f"{qual}:source", DS, fi.node, f"{qual} does not filter self.{attr}")
+        if not elt_ok:
+            ctx.violation("R5.5", f"{qual}:element", DS, fi.node, f"{qual} does not yield the enumerated item")
         d = fi.node.args.defaults
         if not (len(d) == 1 and isinstance(d[0], ast.Constant) and d[0].value is False):
             ctx.violation("R5.5", f"{qual}:default", DS, fi.node, f"{qual}: default of `masked` is not False (analyses rely on it to exclude masked points)")
@@ -164,10 +198,49 @@ def check(ctx: Ctx) -> None:
                       f"get_frequencies and get_impedances filter with different predicates: {preds}")
     else:
         p = next(iter(vals))
-        if p == "self._mask.get(<i>, False) == masked":
+        if p in ("self._mask.get(<i>, False) == masked",) or (p.startswith("self.") and p.endswith(" == masked")):
             ctx.ok()  # x == True / x == False partition the index set
         else:
             raise AnalysisError(f"R5.5: filter predicate {p!r} not recognised as a two-way partition")
+    # derived mask state must be refreshed on every path that changes the mask
+    derived = set().union(*flags.values()) - {"_mask"}
+    for dattr in sorted(derived):
+        from ..cfg import CFG
+        ds_cls = model.classes[f"{DS}:DataSet"]
+        for mname, mfi in ds_cls.methods.items():
+            def writes(a, attr_):
+                for x in ast.walk(a):
+                    if isinstance(x, (ast.Assign, ast.AnnAssign, ast.AugAssign)):
+                        tg = x.targets if isinstance(x, ast.Assign) else [x.target]
+                        for t_ in tg:
+                            base = t_.value if isinstance(t_, ast.Subscript) else t_
+                            if isinstance(base, ast.Attribute) and base.attr == attr_ and dotted(base.value) == "self" and (not isinstance(x, ast.AnnAssign) or x.value is not None):
+                                return True
+                    if isinstance(x, ast.Call) and isinstance(x.func, ast.Attribute) and x.func.attr in ("update", "clear", "pop", "setdefault") \
+                            and isinstance(x.func.value, ast.Attribute) and x.func.value.attr == attr_ and dotted(x.func.value.value) == "self":
+                        return True
+                return False
+            from ..cfg import own_expr
+            cfg = CFG(mfi.node)
+            wnodes = [nd for nd in cfg.nodes if own_expr(nd) is not None and writes(own_expr(nd), "_mask")]
+            if not wnodes:
+                continue
+            ctx.instance("R5.5", f"DataSet.{mname}: every change of _mask is followed by a refresh of {dattr}")
+            blocked = {nd.id for nd in cfg.nodes if own_expr(nd) is not None and (writes(own_expr(nd), dattr) or
+                       any(isinstance(c_, ast.Call) and dotted(c_.func) == "self.set_mask" for c_ in ast.walk(own_expr(nd))))}
+            stale = None
+            for wn in wnodes:
+                if wn.id in blocked:
+                    continue
+                reach = cfg.reachable_from(wn.id, blocked - {wn.id})
+                if cfg.exit.id in reach:
+                    stale = wn
+            if stale is not None:
+                ctx.violation("R5.5", f"DataSet.{mname}:stale-{dattr}", DS, stale.ast,
+                              f"DataSet.{mname} changes _mask on a path that returns without refreshing {dattr}, which the masked/unmasked views read: "
+                              f"get_mask()/to_dict() and the filtered views disagree afterwards")
+            else:
+                ctx.ok()
     for qual in ("DataSet.get_magnitudes", "DataSet.get_phases", "DataSet.get_num_points", "DataSet.get_nyquist_data",
                  "DataSet.get_bode_data", "DataSet.to_dataframe"):
         fi = model.fi(DS, qual)
@@ -307,6 +380,24 @@ def check(ctx: Ctx) -> None:
     if any(isinstance(n, ast.Return) and norm(n.value) == "self._impedances" for n in walk_ordered(gi.node)):
         ctx.note("get_impedances(masked=None) returns the internal array itself while get_frequencies(None) and get_mask copy (sibling inconsistency; not a violation of the stated property)")
     ctx.sample({"to_dict_keys": out_keys, "parse_removed": sorted(removed), "parse_added": sorted(added), "init_params": params})
+
+
+def _filter_shape(fn: ast.AST, attr: str):
+    """(predicate text with the index as <i>, set of self attributes the predicate reads, source ok, element ok)"""
+    comps = [n for n in walk_ordered(fn) if isinstance(n, ast.ListComp)]
+    if len(comps) == 1 and len(comps[0].generators) == 1:
+        g = comps[0].generators[0]
+        if isinstance(g.target, ast.Tuple) and len(g.target.elts) == 2 and isinstance(g.iter, ast.Call) and dotted(g.iter.func) == "enumerate":
+            idx, item = g.target.elts[0].id, g.target.elts[1].id
+            pred = " and ".join(norm(c).replace(idx, "<i>") for c in g.ifs)
+            fl = {n.attr for c in g.ifs for n in ast.walk(c) if isinstance(n, ast.Attribute) and dotted(n.value) == "self"}
+            return pred, fl, norm(g.iter) == f"enumerate(self.{attr})", norm(comps[0].elt) == item
+    for n in walk_ordered(fn):
+        if isinstance(n, ast.Subscript) and norm(n.value) == f"self.{attr}" and isinstance(n.slice, ast.Compare) \
+                and len(n.slice.ops) == 1 and isinstance(n.slice.ops[0], ast.Eq) and norm(n.slice.comparators[0]) == "masked" \
+                and isinstance(n.slice.left, ast.Attribute) and dotted(n.slice.left.value) == "self":
+            return norm(n.slice), {n.slice.left.attr}, True, True
+    return None
 
 
 def _reversal(ctx: Ctx, model) -> None:
